@@ -101,7 +101,19 @@ QUOTES = "'" + '"'
 BSL = chr(92)
 TOL["KF-RT-str-special"] = lambda k, w, c, ir, o: c in ("default-value", "default-lost", "default-type") and _str_special(ir)
 # exceptions tolerated while a finding is open: id -> predicate(kind, ir, exception type name)
+def _code_default_plain_typ(ir):
+    for e in list(ir["params"].values()) + [((ir.get("returns") or {}).get("return_type") or {})]:
+        d = e.get("default")
+        if isinstance(d, str) and len(d) > 6 and d.startswith("```") and d.endswith("```") and d != "```(None)```" and "[" not in (e.get("typ") or ""):
+            return True
+    return False
+
+
+TOL["KF-RT-code-default-drops-type"] = lambda k, w, c, ir, o: c == "typ-lost" and k in ("class", "function", "method") \
+    and isinstance(_entry(ir, w).get("default"), str) and _entry(ir, w)["default"].startswith("```") and "[" not in (_entry(ir, w).get("typ") or "")
 TOL_EXC = {
+    "KF-RT-code-default-literal-eval-crash": lambda k, ir, exc: exc == "ValueError" and _code_default_plain_typ(ir)
+    and k in ("function", "method", "rest", "numpydoc", "google"),
     "KF-RT-str-special": lambda k, ir, exc: exc in ("SyntaxError", "ValueError") and _str_special(ir),
 }
 
@@ -151,6 +163,10 @@ def rt(kind, shape_id, opts, active, p=None, d=None, s=None, b=None, text=False)
         if tolerated_exc((kind,), ir, type(e).__name__, active):
             return True
         raise
+    if kind in ("function", "method"):
+        want_type = "static" if kind == "function" else opts.get("ftype", "self")
+        if got.get("type") != want_type:
+            return False  # plain function / instance method / class method must be preserved
     return judge(got, ir, kind, opts, active)
 
 
